@@ -59,6 +59,7 @@ def worker_main(argv):
     ap.add_argument("pid")
     ap.add_argument("--seed", type=int, default=0)
     ap.add_argument("--shard", type=int, default=0)
+    ap.add_argument("--nshards", type=int, default=1)
     ap.add_argument("--cases", type=int, default=1000)
     ap.add_argument("--secs", type=float, default=0)
     ap.add_argument("--tier", default="quick")
@@ -74,6 +75,7 @@ def worker_main(argv):
     samples = []
     ncases = 0
     from vp.harness import digest
+    mon.shard, mon.nshards = a.shard, a.nshards
     if hasattr(mon, "begin"):
         mon.begin(a.tier)
     k = 0
@@ -190,7 +192,7 @@ def main(argv=None):
     for sh in range(workers):
         out = os.path.join(ROOT, "work", "%s.%d.%d.%d.json" % (pid, a.seed, sh, os.getpid()))
         cmd = [PY, "-B", os.path.join(ROOT, "vp", "runner.py"), "--worker", pid, "--seed", str(a.seed),
-               "--shard", str(sh), "--cases", str(cases), "--secs", str(secs), "--tier", a.tier, "--out", out]
+               "--shard", str(sh), "--nshards", str(workers), "--cases", str(cases), "--secs", str(secs), "--tier", a.tier, "--out", out]
         procs.append((sh, out, subprocess.Popen(cmd, env=env, stdout=subprocess.PIPE, stderr=subprocess.STDOUT)))
     timeout = budget.get("timeout", 900 if a.tier == "quick" else 3600)
     results = []
@@ -290,6 +292,14 @@ def main(argv=None):
                workers=workers, watchdog_fired=watchdog, witnesses=witness_note,
                sources=__import__("vp.harness", fromlist=["x"]).source_hashes(),
                inconclusive=inconclusive)
+    for k in list(stats):
+        if k.startswith("exhaustive_of_"):
+            size = int(k.split("_")[-1])
+            done = len(sets.get("exhaustive_indices", ()))
+            cov["exhaustive_subspace"] = dict(
+                what="every event sequence over {retract, recover, print inside/outside, travel inside/outside} with matched "
+                     "cycles up to the length bound, E-only and firmware retraction", size=size, enumerated=done,
+                complete=(done == size))
     if "states" in sets:
         cov["states"] = len(sets["states"])
         cov["state_list"] = sorted(sets["states"])[:64]
